@@ -79,7 +79,7 @@ TDeliverProposal ==
             /\ blocks' = [blocks EXCEPT ![e.n] = IF e.stored = 1 THEN @ \cup {e.p} ELSE @ \ {e.p}]
             /\ UNCHANGED <<cf, props, pc, step, sel, bh, ih, ba, pend, pool, due, sent, fetched, commit, endk>> /\ Ok
 
-\* a forged vote (another round, another parent, a stranger's key) must never count: it does not enter the pool of BA
+\* a forged vote (another round, another parent, a stranger's key, a re-signed copy of a vote the node holds) must never count: it does not enter the pool of BA
 TDeliverVote ==
     /\ e.ev = "Deliver" /\ e.t = "vote"
     /\ IF e.forged # "" THEN UNCHANGED vars /\ Ok
@@ -116,15 +116,15 @@ TVote ==
        THEN IF e.s = R1 /\ e.v = sel[n] /\ sel[n] \in blocks[n] THEN CastR1(n, e.v) /\ Ok
             ELSE IF e.s = R1 /\ e.v = Empty /\ sel[n] \notin blocks[n] THEN CastR1(n, Empty) /\ Ok
             ELSE IF e.s # R1 THEN Fail("Step:Vote:R1-skipped")
-            ELSE IF e.v = Empty THEN Fail("Step:Vote:R1:empty-although-block-stored")
-            ELSE IF e.v = sel[n] THEN Fail("EmptyOnTimeout:R1:vote-for-a-block-not-received")
-            ELSE Fail("Step:Vote:R1:vote-for-unselected-block")
+            ELSE IF e.v = Empty THEN Fail("Step:Vote:R1:empty-but-block-stored")
+            ELSE IF e.v = sel[n] THEN Fail("EmptyOnTimeout:R1:block-not-received")
+            ELSE Fail("Step:Vote:R1:unselected-block")
        ELSE IF due[n] # <<>>
        THEN IF Head(due[n]) = D(e.s, e.v) THEN Cast(n) /\ Ok
-            ELSE IF Head(due[n]).s # e.s THEN Fail("Step:Vote:step:" \o StepName(Head(due[n]).s) \o "-expected-" \o StepName(e.s) \o "-cast")
+            ELSE IF Head(due[n]).s # e.s THEN Fail("Step:Vote:step:" \o StepName(Head(due[n]).s) \o "-due-" \o StepName(e.s) \o "-cast")
             ELSE IF Head(due[n]).v = Empty /\ lastres[n] = NoVal
-                 THEN Fail("EmptyOnTimeout:" \o StepName(e.s) \o ":" \o ValName(e.v) \o "-voted-after-timeout")
-            ELSE Fail("VoteValue:" \o StepName(e.s) \o ":" \o ValName(Head(due[n]).v) \o "-expected-" \o ValName(e.v) \o "-cast")
+                 THEN Fail("EmptyOnTimeout:" \o StepName(e.s) \o ":" \o ValName(e.v) \o "-after-timeout")
+            ELSE Fail("VoteValue:" \o StepName(e.s) \o ":" \o ValName(Head(due[n]).v) \o "-due-" \o ValName(e.v) \o "-cast")
        ELSE Fail("Step:Vote:unexpected:" \o StepName(e.s))
 
 TCount ==
@@ -135,12 +135,12 @@ TCount ==
        IF e.cur # 1 THEN UNCHANGED vars /\ Ok
        ELSE IF pc[n] # "count" THEN Fail("Step:Count:unexpected:" \o StepName(s))
        ELSE IF due[n] # <<>> THEN Fail("Step:Count:before-vote:" \o StepName(Head(due[n]).s))
-       ELSE IF step[n] # s THEN Fail("Step:Count:step:" \o StepName(step[n]) \o "-expected-" \o StepName(s) \o "-counted")
+       ELSE IF step[n] # s THEN Fail("Step:Count:step:" \o StepName(step[n]) \o "-due-" \o StepName(s) \o "-counted")
        ELSE IF e.res = -1
             THEN IF \E v \in Values : Quorum(n, s, v) THEN Fail("CountComplete:" \o StepName(s))
                  ELSE AfterCount(n, NoVal, {}) /\ UNCHANGED pool /\ skip' = skip /\ lastres' = [lastres EXCEPT ![n] = NoVal]
        ELSE IF e.res \notin Values THEN Fail("CountSound:" \o StepName(s) \o ":unknown-hash")
-       ELSE IF ~Quorum(n, s, e.res) THEN Fail("CountSound:" \o StepName(s) \o ":" \o ValName(e.res) \o ":no-quorum-of-genuine-votes")
+       ELSE IF ~Quorum(n, s, e.res) THEN Fail("CountSound:" \o StepName(s) \o ":" \o ValName(e.res) \o ":no-genuine-quorum")
        ELSE IF ~(vs \subseteq Voters(n, s, e.res) /\ Cardinality(vs) >= Thr(s)) THEN Fail("CountSound:" \o StepName(s) \o ":certificate")
        ELSE AfterCount(n, e.res, vs) /\ UNCHANGED pool /\ skip' = skip /\ lastres' = [lastres EXCEPT ![n] = e.res]
 
@@ -166,7 +166,7 @@ CertProblem(n) ==
     ELSE IF ~skip /\ (\E w \in c.voters : VoteMsg(w, c.cs, c.cv) \notin sent) THEN "vote-nobody-cast"
     ELSE IF e.accW # 1 THEN "refused-by-witness"
     ELSE IF e.accP = -1 THEN "refused-by-participant"
-    ELSE IF c.final # (c.cs = Final) THEN (IF c.final THEN "final-marker-without-final-certificate" ELSE "final-certificate-on-tentative-block")
+    ELSE IF c.final # (c.cs = Final) THEN (IF c.final THEN "final-mark-no-final-cert" ELSE "final-cert-on-tentative")
     ELSE ""
 ValidityProblem ==
     IF e.v = Empty THEN ""
@@ -177,8 +177,8 @@ ValidityProblem ==
 AgreementProblem(n) ==
     IF \E m \in Nodes : m # n /\ Committed(m) /\ commit[m].v # e.v
     THEN LET m == CHOOSE x \in Nodes : x # n /\ Committed(x) /\ commit[x].v # e.v
-         IN (IF commit[m].final THEN "final" ELSE "tentative") \o "-" \o ValName(commit[m].v) \o "-vs-" \o
-            (IF e.final = 1 THEN "final" ELSE "tentative") \o "-" \o ValName(e.v)
+         IN (IF commit[m].final THEN "final" ELSE "tent") \o "-" \o ValName(commit[m].v) \o "-vs-" \o
+            (IF e.final = 1 THEN "final" ELSE "tent") \o "-" \o ValName(e.v)
     ELSE ""
 Install(n) == /\ commit' = [commit EXCEPT ![n] = ObsCommit] /\ pc' = [pc EXCEPT ![n] = "done"]
               /\ UNCHANGED <<cf, props, step, best, blocks, sel, bh, ih, ba, pend, pool, due, sent, fetched, endk>>
@@ -199,10 +199,10 @@ TCommit ==
                           ELSE IF due[n] # <<>> THEN "Step:Commit:before-vote:" \o StepName(Head(due[n]).s)
                           ELSE IF e.h # 1 THEN "Step:Commit:height"
                           ELSE IF e.v # p.v THEN "CommitValue:" \o ValName(p.v) \o "-decided-" \o ValName(e.v) \o "-added"
-                          ELSE IF (e.final = 1) # p.final THEN "FinalFlag:" \o (IF p.final THEN "final-count-succeeded-not-marked" ELSE "marked-final-without-final-count")
+                          ELSE IF (e.final = 1) # p.final THEN "FinalFlag:" \o (IF p.final THEN "final-count-ok-not-marked" ELSE "marked-without-final-count")
                           ELSE IF pc[n] = "getblock" /\ e.v \notin fetched[n] THEN "Step:Commit:block-from-nowhere"
                           ELSE IF e.cert.present = 1 /\ (e.cert.s # p.cs \/ ToSet(e.cert.voters) # p.voters)
-                               THEN "CertifiedCommit:not-the-certificate-of-the-decision:" \o StepName(p.cs) \o "-expected-" \o StepName(e.cert.s) \o "-stored"
+                               THEN "CertifiedCommit:other-cert:" \o StepName(p.cs) \o "-due-" \o StepName(e.cert.s)
                           ELSE ""
                IN IF why = "" THEN skip' = (~Clean(n)) ELSE skip' = TRUE /\ Rep(why)
 
@@ -212,7 +212,7 @@ TEnd ==
        IF skip THEN UNCHANGED vars /\ Ok
        ELSE IF e.kind = "noconsensus"
             THEN IF pc[n] = "done" /\ endk[n] = "noconsensus" THEN UNCHANGED vars /\ Ok
-                 ELSE Fail("Termination:no-consensus-declared:" \o pc[n] \o (IF pc[n] = "count" THEN ":" \o StepName(step[n]) ELSE ""))
+                 ELSE Fail("Termination:no-consensus:" \o pc[n] \o (IF pc[n] = "count" THEN ":" \o StepName(step[n]) ELSE ""))
        ELSE IF e.kind = "notfound"
             THEN IF pc[n] = "getblock" /\ pend[n].v \notin fetched[n]
                  THEN /\ pc' = [pc EXCEPT ![n] = "done"] /\ endk' = [endk EXCEPT ![n] = "notfound"]
